@@ -363,7 +363,7 @@ fn huff_family(out: &mut Vec<TCase>, aliases: &[&str], thorough: bool, binary: b
 }
 
 fn ties_family(out: &mut Vec<TCase>, combos: &[(&str, &str)], thorough: bool) {
-    let amax = if thorough { 7 } else { 6 };
+    let amax = if thorough { 8 } else { 7 };
     let w: &[u32] = &W6;
     let mut rot = 0;
     for a in 1..=amax {
